@@ -48,6 +48,7 @@ func work(bits uint32) *big.Int {
 type Built struct {
 	ID, Parent int
 	Block      *types.Block
+	Detail     *types.BlockDetail // with receipts, state KVs and previous state root
 	Hash       []byte
 	Height     int64
 	TD         *big.Int // model's total difficulty
@@ -120,6 +121,16 @@ func (w *World) MakeTx(op *simrt.Op) *types.Transaction {
 		tx.To = w.Fac.Cfg.GetCoinExec() // replaced below
 		tx.To = addrOfExec(w.Cfg, "none")
 		tx.Nonce = op.Int(1)
+	case "toexec": // I=[from,_,amount,nonce]: coins transfer into the "none" executor
+		to := execAddr("none")
+		v := &cty.CoinsAction_TransferToExec{TransferToExec: &types.AssetsTransferToExec{Amount: op.Int(2), ExecName: "none", To: to}}
+		tx = &types.Transaction{Execer: []byte(w.Cfg.GetCoinExec()), Payload: types.Encode(&cty.CoinsAction{Value: v, Ty: cty.CoinsActionTransferToExec}), To: to}
+		tx.Nonce = op.Int(3)
+	case "withdraw": // I=[from,_,amount,nonce]: withdraw from the "none" executor
+		to := execAddr("none")
+		v := &cty.CoinsAction_Withdraw{Withdraw: &types.AssetsWithdraw{Amount: op.Int(2), ExecName: "none", To: to}}
+		tx = &types.Transaction{Execer: []byte(w.Cfg.GetCoinExec()), Payload: types.Encode(&cty.CoinsAction{Value: v, Ty: cty.CoinsActionWithdraw}), To: to}
+		tx.Nonce = op.Int(3)
 	default:
 		return nil
 	}
@@ -130,6 +141,37 @@ func (w *World) MakeTx(op *simrt.Op) *types.Transaction {
 	}
 	tx.Sign(types.SECP256K1, w.key(int(op.Int(0))).Priv)
 	return tx
+}
+
+// MakeTxs expands a generated op into transactions: a single transaction, or
+// for K="group" a signed transaction group built by the client library.
+func (w *World) MakeTxs(op *simrt.Op) []*types.Transaction {
+	if op.K != "group" {
+		if tx := w.MakeTx(op); tx != nil {
+			return []*types.Transaction{tx}
+		}
+		return nil
+	}
+	var txs []*types.Transaction
+	for i := range op.Sub {
+		if tx := w.MakeTx(&op.Sub[i]); tx != nil {
+			txs = append(txs, tx)
+		}
+	}
+	if len(txs) < 2 {
+		return txs
+	}
+	g, err := types.CreateTxGroup(txs, w.Cfg.GetMinTxFeeRate())
+	if err != nil {
+		simrt.Failf("CreateTxGroup: %v", err)
+	}
+	for i := range g.Txs {
+		g.Txs[i].Signature = nil
+		if err := g.SignN(i, types.SECP256K1, w.key(int(op.Sub[i].Int(0))).Priv); err != nil {
+			simrt.Failf("SignN: %v", err)
+		}
+	}
+	return g.Txs
 }
 
 // Build executes one block spec on its parent and records it. It returns nil
@@ -165,7 +207,17 @@ func (w *World) Build(id, parent int, diffIdx int, dt int64, txops []simrt.Op) *
 		}
 	}
 	for i := range txops {
-		if tx := w.MakeTx(&txops[i]); tx != nil && !onBranch[string(tx.Hash())] {
+		txs := w.MakeTxs(&txops[i])
+		dup := len(txs) == 0
+		for _, tx := range txs {
+			if onBranch[string(tx.Hash())] {
+				dup = true
+			}
+		}
+		if dup {
+			continue
+		}
+		for _, tx := range txs {
 			onBranch[string(tx.Hash())] = true
 			blk.Txs = append(blk.Txs, tx)
 		}
@@ -181,6 +233,7 @@ func (w *World) Build(id, parent int, diffIdx int, dt int64, txops []simrt.Op) *
 		return nil // every transaction was dropped (e.g. unfunded sender)
 	}
 	b := &Built{ID: id, Parent: parent, Block: types.Clone(detail.Block).(*types.Block), Up: up}
+	b.Detail = types.Clone(detail).(*types.BlockDetail)
 	b.Hash = b.Block.Hash(w.Cfg)
 	b.Height = b.Block.Height
 	b.TD = new(big.Int).Add(ptd, work(bits))
